@@ -4,6 +4,7 @@ import Sftp.Generated.ClientConnCfg
 import Sftp.Generated.ListingCfg
 import Sftp.Generated.TransferFacts
 import Sftp.Generated.DispatchCfg
+import Sftp.Generated.CompositeCfg
 /-
   `cur.cfg <model>` prints, in the token syntax of the corresponding driver, the configuration the
   translator REGENERATED from the source on this run, so that the harness replays schedules in the
@@ -16,6 +17,7 @@ import Sftp.Generated.DispatchCfg
     cur.cfg c16    →  six bits          (c16.list …: incByN eofOnlyWhenEmpty filterDots stopOnStatus eofIsNil baseName)
     cur.cfg c16os  →  five bits + " " + batch    (c16.oslist)
     cur.cfg dispReadAt|dispWriteAt|dispReadFrom|dispWriteTo → nine bits (disp.runcfg)
+    cur.cfg composite → <removePkt><rmdirPkt><15 bits><maFileErr>:<rmFallbackOn>   (c05c.*)
     cur.cfg xfer   →  wtm,rfm           (the two source facts of the xfer.* cfg tuple)
 -/
 namespace Sftp.Driver.Cur
@@ -67,6 +69,7 @@ def cfgOp : List String → String
   | ["c18"] => c18
   | ["c16"] => c16
   | ["c16os"] => c16os
+  | ["composite"] => G.compositeCfg.render
   | ["xfer"] => b G.writeToMovesOnEmpty ++ "," ++ b G.readFromMasksWriteErr
   | _ => "bad-op"
 
